@@ -417,7 +417,7 @@ class ASTNode(DataClassSerializeMixin):
         """
         return _unregister(self)
 
-    def replace(self: ASTNodeType, **kwargs: Any) -> ASTNodeType:
+    def replace(self: ASTNodeType, /, **kwargs: Any) -> ASTNodeType:
         """Replaces this node in the registry with a new one with the given
         fields replaced.
 
